@@ -11,7 +11,20 @@ from nutree.typed_tree import ANY_KIND
 LEVEL = "proof"
 TRUSTED = []
 ASSUMPTIONS = ["node identities are unique within a tree (C01)"]
-KINDS = [None, "a", "b", "c", "zzz"]
+KINDS = [None, "kind-a", "kind-b", "kind-c", "zzz"]
+
+
+def long_kinds(spec):
+    """kind letters of the generators -> multi-character kind names (CPython caches one-character strings, so a query
+    string of length 1 is always the very object stored on the node; see k_arg)"""
+    out = []
+    for lab, kids in spec:
+        if isinstance(lab, dict):
+            lab = dict(lab, k=(None if lab.get("k") is None else "kind-" + lab["k"]))
+        elif isinstance(lab, tuple):
+            lab = (lab[0], None if lab[1] is None else "kind-" + lab[1])
+        out.append((lab, long_kinds(kids)))
+    return out
 
 
 def g(f):
@@ -22,7 +35,9 @@ def g(f):
 
 
 def k_arg(k):
-    return ANY_KIND if k is None else k
+    # a query kind is an equal but DISTINCT string object (as one parsed from a file or typed by a user would be):
+    # the property is about equality of kinds, not identity of str objects
+    return ANY_KIND if k is None else "".join(list(k))
 
 
 def impl_child(node, k, ser):
@@ -66,7 +81,7 @@ def cmp(out, case, what, impl, model, spec):
 
 def check_tree(ctx, out, spec, tag, levelorder=False):
     # levelorder: same tree, created out of document order (registry order != pre-order)
-    tree = (adapter.build_levelorder if levelorder else adapter.build)(spec, ctx.pool, typed=True)
+    tree = (adapter.build_levelorder if levelorder else adapter.build)(long_kinds(spec), ctx.pool, typed=True)
     ser = adapter.Serials()
     ser.by_obj[id(tree.system_root)] = 0
     ser.keep.append(tree.system_root)
